@@ -32,15 +32,29 @@ class AssemblyManager(object):
     def assemble(self):
         modmap = self._generate_modules_map()
 
+        # a record can be reachable through several elements: handle it once
+        records = []
         for elem in self.elements:
-            self._deref_citations(elem.record)
+            if not any(elem.record is record for record in records):
+                records.append(elem.record)
 
-        assembly = self._generate_assembly(modmap)
+        # remember the citations of the inputs, to restore them whatever happens
+        citations = [
+            (feature.qualifiers["citation"], list(feature.qualifiers["citation"]))
+            for record in records
+            for feature in record.features
+            if "citation" in feature.qualifiers
+        ]
 
-        self._annotate_assembly(assembly)
-        self._ref_citations(assembly)
-        for elem in self.elements:
-            self._ref_citations(elem.record)
+        try:
+            for record in records:
+                self._deref_citations(record)
+            assembly = self._generate_assembly(modmap)
+            self._annotate_assembly(assembly)
+            self._ref_citations(assembly)
+        finally:
+            for current, original in citations:
+                current[:] = original
 
         return assembly
 
